@@ -172,6 +172,21 @@ class C06(core.Check):
                 q = gen_query(rng)
                 recv = rng.choice(['doc', 'doc', 'elem', 'coll'])
                 queries.append(dict(q=q, recv=recv, sel=[rng.random() for _ in range(4)]))
+            # single-result forms from the root element and from random elements, every predicate: the first match in document order
+            # can lie deeper than a later matching sibling
+            for pr in rng.sample(PREDS, 3):
+                queries.append(dict(q=['first', pr], recv='elem', sel=[0.0, 0.0, 0.0, 0.0]))
+            for pr in rng.sample(PREDS, 2):
+                queries.append(dict(q=['first', pr], recv=rng.choice(['elem', 'doc']), sel=[rng.random() for _ in range(4)]))
+            nq += len(queries)
+            cases.append(dict(toks=toks, queries=queries))
+        # directed: an earlier sibling holds a match below it, a later sibling matches itself
+        for deep, shallow in ((['S', 'span', [['data-x', '1', '"']], False], ['S', 'span', [['data-x', '2', '"']], False]),
+                              (['S', 'div', [['id', 'a', '"']], False], ['S', 'p', [['id', 'b', '"']], False])):
+            toks = [['S', 'div', [], False], ['S', 'ul', [], False], ['S', 'li', [], False], deep, ['E', deep[1]], ['E', 'li'], ['E', 'ul'],
+                    shallow, ['E', shallow[1]], ['E', 'div']]
+            queries = [dict(q=['first', pr], recv=rv, sel=[0.0, 0.0, 0.0, 0.0]) for pr in PREDS for rv in ('elem', 'doc')]
+            queries += [dict(q=['custom', pr], recv='elem', sel=[0.0, 0.0, 0.0, 0.0]) for pr in PREDS[:4]]
             nq += len(queries)
             cases.append(dict(toks=toks, queries=queries))
         self.stats.update(documents=ndocs, queries=nq)
